@@ -143,7 +143,7 @@ structure Row where
 
 /-- rows of the first `fuel` iterations, the final phase, and the margin of the exit test -/
 def trace (P : Params) (I : Resp) : Nat → St → List Row → List Row × Phase × Rat
-  | 0, s, acc => (acc.reverse, .run s, margin P I s)
+  | 0, s, acc => (acc.reverse, if live P s then .run s else .exited s.peak, margin P I s)
   | fuel + 1, s, acc =>
     if live P s then
       let m := margin P I s
